@@ -8,7 +8,8 @@
   `harness/extract_vocab.py` from `_Filterer()._operator_map`, `LOGICAL_OPERATOR_MAP`,
   `_TOP_LEVEL_OPERATORS`, `_NOT_IMPLEMENTED_OPERATORS`, `collection._updaters`, the in-line
   branches of `Collection._apply_update`, the names `_validate_update_operators` lets through, `aggregate._PIPELINE_HANDLERS`, the `if k in <list>`
-  chain of `_Parser.parse` with the branches of every `_handle_*`, `_GROUPING_OPERATOR_MAP`,
+  chain of `_Parser.parse` with the branches of every `_handle_*`, `_GROUPING_OPERATOR_MAP`, the
+  names `_validate_accumulators` lets through,
   `group_operators`, `TYPE_MAP`).
 
   Names are `Code`s: the UTF-8 bytes of the name read as a little-endian base-256 numeral
@@ -112,6 +113,8 @@ structure Tables (α : Type) where
   groupingMap : List α      -- `_GROUPING_OPERATOR_MAP`
   groupInline : List α      -- `elif operator == '$op'` branches of `_accumulate_group`
   groupOperators : List α   -- `group_operators`
+  groupChecked : List α     -- the names `_validate_accumulators` lets through (before `$group` /
+                            -- `$bucket` read any document); every other name raises there
   typeImpl : List α         -- `TYPE_MAP` with a predicate
   typeNone : List α         -- `TYPE_MAP` with `None`
   decimalSupport : Bool     -- `aggregate.decimal_support` (bson importable)
@@ -127,6 +130,7 @@ def Tables.map {α β} (f : α → β) (T : Tables α) : Tables β :=
     exprChain := T.exprChain.map (fun p => (p.1.map f, p.2.map f)),
     exprNI := T.exprNI.map f, groupingMap := T.groupingMap.map f,
     groupInline := T.groupInline.map f, groupOperators := T.groupOperators.map f,
+    groupChecked := T.groupChecked.map f,
     typeImpl := T.typeImpl.map f, typeNone := T.typeNone.map f,
     decimalSupport := T.decimalSupport }
 
@@ -134,6 +138,7 @@ def Tables.empty : Tables Code :=
   { operatorMap := [], logicalOps := [], logicalConst := [], topLevelNI := [], fieldNI := [],
     updaters := [], updateInline := [], updateChecked := [], pushModifiers := [], stagesImpl := [], stagesNone := [],
     exprChain := [], exprNI := [], groupingMap := [], groupInline := [], groupOperators := [],
+    groupChecked := [],
     typeImpl := [], typeNone := [], decimalSupport := false }
 
 /-! ## classification of a name against the tables (computed once per name) -/
@@ -169,6 +174,7 @@ structure NameClass where
   exprNI : Bool
   grouping : Bool
   groupInline : Bool
+  groupChecked : Bool
   typeImpl : Bool
   typeNone : Bool
   deriving DecidableEq, Repr
@@ -192,6 +198,7 @@ def classify (T : Tables Code) (k : Code) : NameClass :=
     exprNI := T.exprNI.contains k,
     grouping := T.groupingMap.contains k,
     groupInline := T.groupInline.contains k,
+    groupChecked := T.groupChecked.contains k,
     typeImpl := T.typeImpl.contains k,
     typeNone := T.typeNone.contains k }
 
@@ -285,10 +292,15 @@ def exprDispatch (dec : Bool) (c : NameClass) : Disposition :=
     else if c.op then .raisesOther
     else .plainKey
 
-/-- `_accumulate_group`: `_GROUPING_OPERATOR_MAP`, `$addToSet`, `$push`; `group_operators` and
-    everything else → NotImplementedError. -/
+/-- `_validate_accumulators` (called by `$group` and `$bucket` before any document is read): a
+    name outside `_GROUPING_OPERATOR_MAP`, `$addToSet`, `$push` → NotImplementedError, whether
+    it is one of `group_operators` or not; then `_accumulate_group`: `_GROUPING_OPERATOR_MAP`,
+    the `$addToSet` and `$push` branches — and NO default branch any more: a name the pre-check
+    lets through and the loop has no branch for would give no output field, silently
+    (`accumulator_precheck_within_loop` in Props/C20: the regenerated tables have none). -/
 def accDispatch (c : NameClass) : Disposition :=
-  if c.grouping || c.groupInline then .implemented else .raisesNotImplemented
+  if !c.groupChecked then .raisesNotImplemented
+  else if c.grouping || c.groupInline then .implemented else .ignored
 
 /-- `_type_op`: not in `TYPE_MAP` → OperationFailure; `None` → NotImplementedError. -/
 def typeDispatch (c : NameClass) : Disposition :=
@@ -332,7 +344,7 @@ def recognised (T : Tables Code) : Position → List Code
   | .stage => T.stagesImpl
   | .exprProject | .exprAddFields | .exprMatchExpr | .exprGroupId =>
       (T.exprChain.map (·.1)).flatten ++ T.exprNI
-  | .accumulator => T.groupingMap ++ T.groupInline
+  | .accumulator => T.groupChecked
   | .typeAlias => T.typeImpl ++ T.typeNone
 
 /-- the error of the default branch of a position -/
@@ -373,8 +385,8 @@ def Row.ignoredKnown (knownPairs : List (Position × Code)) (r : Row) : Bool :=
 
 /-! ## consumer sites of the shared dispatchers (pipeline language)
 
-The dispatchers of the pipeline language are shared helpers (`_accumulate_group`,
-`_parse_expression`, `process_pipeline`, `filtering.filter_applies`) that several stage handlers
+The dispatchers of the pipeline language are shared helpers (`_validate_accumulators`,
+`_accumulate_group`, `_parse_expression`, `process_pipeline`, `filtering.filter_applies`) that several stage handlers
 call, each on another part of the stage's specification (`output` of `$bucket`, its `groupBy`,
 the sub-pipelines of `$facet`, `restrictSearchWithMatch` / `startWith` of `$graphLookup`, the
 operand of every accumulator, …).  `harness/extract_sites.py` derives the list of those parts
@@ -388,27 +400,49 @@ structure CallSite where
   line : Nat
   deriving DecidableEq, Repr
 
+/-- the vocabulary a dispatch helper is about -/
+inductive Family | accumulator | expr | stage | query
+  deriving DecidableEq, Repr, Inhabited
+
 /-- a part of a stage's specification that reaches a dispatcher: `<stage>/<key path>:<family>` -/
 structure Site where
   id : String
   call : Nat         -- index into the generated list of call sites
+  family : Family    -- of the helper the call site calls
   deriving DecidableEq, Repr
 
-/-- one name with what was OBSERVED for it at each probed site: (site index, the position whose
-    dispatcher the site's helper is, observed disposition) -/
+/-- what the probing calls of a name that is REFUSED at a site (they all raise on the populated
+    collection) do when the collection the pipeline runs on is empty -/
+inductive OnEmpty
+  | notProbed        -- the name is not refused at the site: nothing to compare
+  | raises           -- every probing call raises on the empty collection as well
+  | silent           -- some probing call returns: the name is not looked at without input
+  deriving DecidableEq, Repr, Inhabited
+
+/-- one observation: site index, the position whose dispatcher the site's helper is, observed
+    disposition (populated collection), and the same calls on an empty collection -/
+structure SiteObs where
+  site : Nat
+  pos : Position
+  disp : Disposition
+  onEmpty : OnEmpty
+  deriving DecidableEq, Repr
+
+/-- one name with what was OBSERVED for it at each probed site -/
 structure SiteRow where
   code : Code
   cls : NameClass
-  disps : List (Nat × Position × Disposition)
+  disps : List SiteObs
 
 structure SiteEntry where
   site : Nat
   pos : Position
   code : Code
   disp : Disposition
+  onEmpty : OnEmpty
 
 def SiteRow.entries (r : SiteRow) : List SiteEntry :=
-  r.disps.map (fun d => ⟨d.1, d.2.1, r.code, d.2.2⟩)
+  r.disps.map (fun d => ⟨d.site, d.pos, r.code, d.disp, d.onEmpty⟩)
 
 def siteEntriesOf (rows : List SiteRow) : List SiteEntry := rows.flatMap SiteRow.entries
 
@@ -418,11 +452,18 @@ def siteEntriesOf (rows : List SiteRow) : List SiteEntry := rows.flatMap SiteRow
 def SiteRow.ok (T : Tables Code) (r : SiteRow) : Bool :=
   decide (classify T r.code = r.cls) &&
     r.disps.all (fun d =>
-      decide (dispatchC T.decimalSupport d.2.1 r.cls = d.2.2) || d.2.2.raises)
+      decide (dispatchC T.decimalSupport d.pos r.cls = d.disp) || d.disp.raises)
 
 /-- the per-row check behind `no_site_name_ignored`: an observed `ignored` is a listed one -/
 def SiteRow.ignoredKnown (known : List (Nat × Code)) (r : SiteRow) : Bool :=
-  r.disps.all (fun d => decide (d.2.2 ≠ .ignored) || known.contains (d.1, r.code))
+  r.disps.all (fun d => decide (d.disp ≠ .ignored) || known.contains (d.site, r.code))
+
+/-- the per-row check behind `sites_loud_on_empty_input`: every refusal was tried again on an
+    empty collection, and a refusal that is not repeated there is at a listed site -/
+def SiteRow.emptyKnown (knownLazy : List Nat) (r : SiteRow) : Bool :=
+  r.disps.all (fun d =>
+    (!d.disp.raises || decide (d.onEmpty ≠ .notProbed)) &&
+    (decide (d.onEmpty ≠ .silent) || knownLazy.contains d.site))
 
 /-- every call of a dispatch helper in the source is reached by a probed site -/
 def callSitesCovered (calls : List CallSite) (sites : List Site) : Bool :=
